@@ -341,7 +341,8 @@ type runState struct {
 	shutRet     atomic.Bool
 	shutDone    chan struct{}
 	shutErr     error
-	noInterrupt bool
+	mode        ShutMode // how this run's Shutdown is driven (declared by the target, corrected by observation)
+	modeNote    string
 
 	err      error
 	returned bool
@@ -355,6 +356,7 @@ var cur *runState
 const (
 	watchdog     = 30 * time.Second // liveness only: nothing in a recorded run sleeps
 	awaitTimeout = 10 * time.Second
+	syncTimeout  = 3 * time.Second
 )
 
 func (rs *runState) abort(why string) {
@@ -394,19 +396,49 @@ func (rs *runState) trigger(ctx context.Context) {
 			rs.shutErr = rs.exp.Shutdown(sctx)
 			rs.shutRet.Store(true)
 		}
-		switch rs.tg.ShutdownMode(rs.ev.What == ShutdownExpired) {
+		// A Shutdown declared to return at once is still called from its own goroutine: if it turns
+		// out to wait for the export (the declaration no longer fits the tree under test), the run
+		// goes on as AsyncSerial / AsyncInterrupt instead of deadlocking the harness.
+		returned := func() bool {
+			t := time.NewTimer(syncTimeout)
+			defer t.Stop()
+			select {
+			case <-rs.shutDone:
+				return true
+			case <-t.C:
+				return false
+			}
+		}
+		switch rs.mode {
 		case SyncInterrupt:
-			call()
-			rs.steps = append(rs.steps, step{k: 'S'})
-			rs.noInterrupt = !await(ctx)
+			go call()
+			if returned() {
+				rs.steps = append(rs.steps, step{k: 'S'})
+			} else {
+				rs.mode, rs.modeNote = AsyncInterrupt, "Shutdown did not return while the export was in flight"
+			}
+			if !await(ctx) {
+				rs.modeNote = "the export's context was not cancelled"
+				if rs.mode == SyncInterrupt {
+					rs.mode = SyncContinue
+				} else {
+					rs.mode = AsyncSerial
+				}
+			}
 		case AsyncInterrupt:
 			go call()
-			rs.noInterrupt = !await(ctx)
+			if !await(ctx) {
+				rs.mode, rs.modeNote = AsyncSerial, "the export's context was not cancelled"
+			}
 		case AsyncSerial:
 			go call()
 		case SyncContinue:
-			call()
-			rs.steps = append(rs.steps, step{k: 'S'})
+			go call()
+			if returned() {
+				rs.steps = append(rs.steps, step{k: 'S'})
+			} else {
+				rs.mode, rs.modeNote = AsyncSerial, "Shutdown did not return while the export was in flight"
+			}
 		}
 	}
 }
@@ -715,11 +747,21 @@ type driver struct {
 	cfgs   []Config
 	maxLen int
 	wd     *time.Timer
+	work   chan func()
 	halt   bool
+	// Shutdown behaviour observed to differ from the target's declaration
+	observed map[bool]ShutMode
 }
 
 func (d *driver) exec(sc script, cfg Config, realWait bool) *runState {
-	rs := &runState{tg: d.tg, word: sc.word, ev: sc.ev, uctx: newScriptCtx(), real: realWait}
+	rs := &runState{tg: d.tg, word: sc.word, ev: sc.ev, uctx: newScriptCtx(), real: realWait, mode: d.mode(sc.ev)}
+	declared := rs.mode
+	defer func() {
+		if rs.mode != declared { // keep what was observed for the rest of the job
+			d.observed[sc.ev.What == ShutdownExpired] = rs.mode
+			d.r.Note("%s: driven as %q from here on (%s)", sc.ev.What, rs.mode.String(), rs.modeNote)
+		}
+	}()
 	cur = rs
 	if sc.ev.Kind == EvBeforeCall {
 		rs.trigger(nil)
@@ -730,7 +772,15 @@ func (d *driver) exec(sc script, cfg Config, realWait bool) *runState {
 		defer d.tg.SetWait(Wait)
 	}
 	done := make(chan struct{})
-	go func() {
+	if d.work == nil {
+		d.work = make(chan func())
+		go func(c chan func()) { // one goroutine runs all exports of a job (its stack is grown once)
+			for f := range c {
+				f()
+			}
+		}(d.work)
+	}
+	d.work <- func() {
 		defer close(done)
 		defer func() {
 			if p := recover(); p != nil {
@@ -739,7 +789,7 @@ func (d *driver) exec(sc script, cfg Config, realWait bool) *runState {
 		}()
 		rs.err = rs.exp.Export(rs.uctx)
 		rs.returned = true
-	}()
+	}
 	d.arm()
 	select {
 	case <-done:
@@ -747,6 +797,9 @@ func (d *driver) exec(sc script, cfg Config, realWait bool) *runState {
 		rs.blocked = "Export has not returned"
 		d.halt = true // the abandoned goroutine still owns the seams
 		return rs
+	}
+	if rs.aborted != "" {
+		d.work = nil // the harness ended that goroutine (runtime.Goexit)
 	}
 	if rs.shutStarted {
 		d.arm()
@@ -834,7 +887,14 @@ func (rs *runState) outcome(tg *Target, ex expect) string {
 	for _, st := range rs.steps {
 		b.WriteByte(st.k) // waits by their place, not by their (random back-off) length
 	}
-	return fmt.Sprintf("%s|%s|handler=%d|shutdown=%v", b.String(), fin, len(rs.handler), rs.shutStarted)
+	b.WriteByte('|')
+	b.WriteString(fin)
+	b.WriteString("|handler=")
+	b.WriteString(strconv.Itoa(len(rs.handler)))
+	if rs.shutStarted {
+		b.WriteString("|shutdown")
+	}
+	return b.String()
 }
 
 func (d *driver) describe(sc script, cfg Config, ex expect, rs *runState) map[string]any {
@@ -848,7 +908,10 @@ func (d *driver) describe(sc script, cfg Config, ex expect, rs *runState) map[st
 	fin := [...]string{"nil", "an error identifying the answer", "an error"}[ex.final]
 	m["expected"] = fmt.Sprintf("%d attempt(s) reach the collector, the call stops because of: %s, and returns %s", ex.attempts, ex.reason, fin)
 	if sc.ev.Kind != EvNone && !sc.ev.What.isCtx() {
-		m["shutdown"] = d.tg.ShutdownMode(sc.ev.What == ShutdownExpired).String()
+		m["shutdown"] = rs.mode.String()
+		if rs.modeNote != "" {
+			m["shutdown"] = rs.mode.String() + " (observed: " + rs.modeNote + ")"
+		}
 	}
 	if rs.real {
 		m["wait"] = "the retry package's real wait function (back-off one hour)"
@@ -876,8 +939,6 @@ func (d *driver) judge(sc script, cfg Config, ex expect, rs *runState) (key, msg
 		return "blocked|" + rs.blocked + " (" + w + ")", fmt.Sprintf("%s within %v although nothing sleeps; expected stop reason: %s", rs.blocked, watchdog, ex.reason)
 	case rs.aborted != "":
 		return "runaway|" + rs.aborted, rs.aborted
-	case rs.noInterrupt:
-		return "shutdown|in-flight export not interrupted", "the harness expected this Shutdown to cancel the export's context (see ShutdownMode) and it did not within " + awaitTimeout.String()
 	case rs.payloadBad != "":
 		k := "payload|differs between attempts"
 		if strings.HasPrefix(rs.payloadBad, "attempt 1:") {
@@ -950,6 +1011,9 @@ func (d *driver) mode(ev Event) ShutMode {
 	if ev.Kind == EvNone || ev.What.isCtx() {
 		return AsyncSerial
 	}
+	if m, ok := d.observed[ev.What == ShutdownExpired]; ok {
+		return m
+	}
 	return d.tg.ShutdownMode(ev.What == ShutdownExpired)
 }
 
@@ -972,7 +1036,7 @@ func (d *driver) visit(sc script, cfg Config, counted bool) (*runState, bool) {
 
 func (d *driver) finish(sc script, cfg Config, rs *runState) {
 	d.r.Eval()
-	ex := predict(sc.word, cfg, sc.ev, d.mode(sc.ev))
+	ex := predict(sc.word, cfg, sc.ev, rs.mode)
 	d.r.Outcome(d.tg.Name + "|" + rs.outcome(d.tg, ex))
 	d.r.Count("attempts", int64(rs.attempts))
 	d.r.Sample(func() any { return d.describe(sc, cfg, ex, rs) })
@@ -1111,7 +1175,7 @@ func (d *driver) realwait() {
 			continue
 		}
 		for _, what := range attemptWhats {
-			if !what.isCtx() && !d.tg.ShutdownMode(what == ShutdownExpired).interrupts() {
+			if !what.isCtx() && !d.mode(Event{Kind: EvAtAttemptEnd, What: what}).interrupts() {
 				continue // this Shutdown waits for the export or does not touch it: the real wait would sleep an hour
 			}
 			for _, async := range []bool{false, true} {
@@ -1154,7 +1218,7 @@ func Run(t *testing.T, tg Target) {
 			otel.SetErrorHandler(otel.ErrorHandlerFunc(handle))
 			tg.SetWait(Wait)
 		})
-		d := &driver{r: r, tg: &tg, alpha: alpha, cfgs: configs(tg.HTTP, thorough), maxLen: enum.Pick(r, 3, 4), wd: time.NewTimer(time.Hour)}
+		d := &driver{r: r, tg: &tg, alpha: alpha, cfgs: configs(tg.HTTP, thorough), maxLen: enum.Pick(r, 3, 4), wd: time.NewTimer(time.Hour), observed: map[bool]ShutMode{}}
 		d.bounds()
 		r.Section(job)
 		switch {
